@@ -180,6 +180,9 @@ def with_tags_lemma():
 def run(L, tier, only=None):
     L.ex.path_budget = 5000
     quick = tier == "quick"
+    budget0 = L.lemma_time_budget
+    if not quick:
+        L.lemma_time_budget = 1800.0      # the cursor words with a tagged size (int / uint) need ~6 min each on an idle machine
     run_structural(L, only)
     for loader, word, arity in WORDS:
         if only and word not in only:
@@ -190,6 +193,7 @@ def run(L, tier, only=None):
                 continue
             L.lemma("C13 %s arg%d" % (word, pos), relational_lemma(loader, word, arity, pos))
     L.ex.path_budget = None
+    L.lemma_time_budget = budget0
 
 
 def run_structural(L, only):
